@@ -824,6 +824,27 @@ type CPHolder struct {
 	Greeting string   `value:"hello" prop:"c17.alt.b"`
 }
 
+// Sect states a prefix that depends on the instance (named sections): an untagged field that already holds an
+// instance when the start begins is bound from the section THAT instance names.
+type Sect struct {
+	section string
+	URL     string `yaml:"url"`
+	Pool    int    `yaml:"pool"`
+}
+
+func (s *Sect) Prefix() string {
+	if s == nil || s.section == "" {
+		return "c17.sect.default"
+	}
+	return "c17.sect." + s.section
+}
+
+type SectHolder struct {
+	Orders *Sect
+	Users  *Sect
+	Def    *Sect
+}
+
 // CfgPP is a (pass-through, non-lazy) component post-processor that has configuration points of its own
 type CfgPP struct {
 	N int    `prefix:"c17.alt.a"`
@@ -892,7 +913,10 @@ func TestStructShapes(t *testing.T) {
 		doc += fmt.Sprintf("  alt:\n    a: %d\n    b: altbee\n", altA)
 		e1, e2 := &EmbHolder{}, &EmbHolder2{}
 		cpp := &CfgPP{}
-		out := kit.RunApp(app.SetComponents(obj.Interface(), cp, e1, e2, cpp), app.SetConfigLoader(loader.NewRawLoader([]byte(doc))))
+		pools := [3]int{rapid.IntRange(1, 9).Draw(t, "pool0"), rapid.IntRange(10, 19).Draw(t, "pool1"), rapid.IntRange(20, 29).Draw(t, "pool2")}
+		doc += fmt.Sprintf("  sect:\n    default:\n      url: d.example.org\n      pool: %d\n    orders:\n      url: o.example.org\n      pool: %d\n    users:\n      url: u.example.org\n      pool: %d\n", pools[0], pools[1], pools[2])
+		sh := &SectHolder{Orders: &Sect{section: "orders"}, Users: &Sect{section: "users"}}
+		out := kit.RunApp(app.SetComponents(obj.Interface(), cp, e1, e2, cpp, sh), app.SetConfigLoader(loader.NewRawLoader([]byte(doc))))
 		desc := fmt.Sprintf("struct-shape %s doc=%q", typ, doc)
 		if !out.OK() {
 			t.Fatalf("C17: %s failed: %v", desc, out)
@@ -913,6 +937,18 @@ func TestStructShapes(t *testing.T) {
 			}
 			if cpp.N != altA || cpp.S != "altbee" || cpp.Q != altA || cpp.O != nil {
 				t.Fatalf("C17: %s: a component post-processor's own configuration points hold N=%d S=%q Q=%d O=%v, configured are %d / altbee / %d / nothing", desc, cpp.N, cpp.S, cpp.Q, cpp.O, altA, altA)
+			}
+		}
+		if out.OK() {
+			for _, x := range []struct {
+				what string
+				got  *Sect
+				url  string
+				pool int
+			}{{"orders", sh.Orders, "o.example.org", pools[1]}, {"users", sh.Users, "u.example.org", pools[2]}, {"default (the field was nil)", sh.Def, "d.example.org", pools[0]}} {
+				if x.got == nil || x.got.URL != x.url || x.got.Pool != x.pool {
+					t.Fatalf("C17: %s: the untagged field holding the instance that names section %s is bound to %+v, that section is configured as {url:%s pool:%d}", desc, x.what, x.got, x.url, x.pool)
+				}
 			}
 		}
 		if cp.Before != "lit" || cp.After != 4 {
